@@ -375,6 +375,7 @@ pub fn compile(path: &Path, src: &str) -> Result<Compilation, CompilationError> 
             .ok_or_else(|| compile_error(format!("package {} not found", name)))?;
         all_files.extend(package.files.clone());
     }
+    let declared_names = hir::declared_item_names(&all_files);
 
     let (hir, hir_table, _hir_diagnostics) = hir::lower_to_project_hir_files(all_files);
 
@@ -386,6 +387,7 @@ pub fn compile(path: &Path, src: &str) -> Result<Compilation, CompilationError> 
     }
 
     let gensym = Gensym::new();
+    gensym.reserve(declared_names);
 
     let mut package_cores = Vec::new();
     for name in graph.discovery_order.iter() {
